@@ -359,7 +359,7 @@ impl Drop for BinCtx {
 
 /// `harness bin`: symbolic cases on stdin, OP/R lines on stdout
 pub fn main_bin(seed: u64) {
-    std::panic::set_hook(Box::new(|_| {}));
+    crate::store::install_panic_recorder();
     let stdin = std::io::stdin();
     let stdout = std::io::stdout();
     let mut w = std::io::BufWriter::new(stdout.lock());
@@ -381,7 +381,10 @@ pub fn main_bin(seed: u64) {
             }
             other => {
                 let c = ctx.as_mut().expect("op outside case");
-                c.exec(other);
+                let what = other.join(" ");
+                let mut extra: Vec<String> = vec![];
+                crate::store::guarded(&mut extra, &what, || c.exec(other));
+                c.h.l1.out.append(&mut extra);
                 for l in c.h.l1.out.drain(..) {
                     writeln!(w, "{l}").unwrap();
                 }
